@@ -890,7 +890,7 @@ func generate(rng *rand.Rand, g genOpts) []*site {
 							}
 						}
 					}
-					// F02-12 (rest): typed constants under an interface declaration / result, always present, with the assigned
+					// the shape of the repaired finding F02-12: typed constants under an interface declaration / result, always present, with the assigned
 					// neighbour that is folded
 					if (o.Name == "mul" || o.Name == "quo") && k.Under == "" && (ctx == "ifacevar" || ctx == "ifaceret" || ctx == "ifaceret2" || ctx == "iface") {
 						switch k.Class {
